@@ -30,6 +30,11 @@ FIRST_LOOK = {  # recorded when the seed was first run, before any rule was touc
  "C14-7": "unknown-shape alarm only", "C14-8": "unknown-shape alarm only", "C14-9": "caught",
  "C30-7": "missed", "C30-8": "missed", "C30-9": "caught",
  "C15-7": "lost-anchor alarm only", "C15-8": "caught", "C15-9": "missed",
+ "C32-7": "caught", "C32-8": "caught", "C32-9": "missed",
+ "C29-7": "caught", "C29-8": "caught", "C29-9": "missed by C29, caught by C27",
+ "C11-7": "caught", "C11-8": "caught", "C11-9": "missed",
+ "C08-7": "missed", "C08-8": "missed by C08, caught by C06/C07", "C08-9": "missed",
+ "C07-7": "missed by C07, caught by C06", "C07-8": "missed", "C07-9": "missed",
 }
 def key(d):
     m = re.match(r".*/C(\d+)-(\d+)$", d); return (int(m.group(1)), int(m.group(2)))
